@@ -1621,14 +1621,15 @@ Lemma drain_J m fuel n : forall k D frs ib pb pc s,
 Proof.
   induction k as [|k IH]; intros D frs ib pb pc s HJ Hk; [lia|]. cbn zeta. cbn [repeat]. rewrite trun_cons.
   destruct (recv_step m fuel D frs ib pb pc s n HJ) as (o' & s' & r & Hst & Hs & Hcase). rewrite Hst. cbv beta iota.
-  destruct Hcase as [(v & frs' & ib' & pb' & -> & Hv & -> & HJ' & Hpl)|[(-> & _)|(-> & _)]].
+  destruct Hcase as [(v & frs' & ib' & pb' & -> & Hv & -> & HJ' & Hpl)|[(-> & _)|[(_ & -> & _)|(_ & -> & _)]]].
   - specialize (IH D frs' ib' pb' false s' HJ'). cbn zeta in IH.
     destruct (trun fuel (alive m ib' pb' false, s') (repeat (OReceive (S n)) k)) as [w' rs]. cbn [fst snd] in *.
     assert (Hl : length (pb' ++ concat frs') < k).
     { rewrite Hpl in Hk. rewrite app_length in Hk. destruct v; [contradiction|]. cbn in Hk. lia. }
     destruct (IH Hl); [left|right]; now right.
   - destruct (trun fuel _ _) as [w' rs]. left. now left.
-  - destruct (trun fuel _ _) as [w' rs]. cbn [snd]. destruct (std s); [right|left]; now left.
+  - destruct (trun fuel _ _) as [w' rs]. right. now left.
+  - destruct (trun fuel _ _) as [w' rs]. left. now left.
 Qed.
 
 Theorem tls_receive_all m sc pitems chunks D n k fuel :
@@ -1638,11 +1639,12 @@ Theorem tls_receive_all m sc pitems chunks D n k fuel :
   let rs := snd (trun fuel (init_tobj m, ep0 sc chunks) ops) in
   (D = 0 -> received ops rs = concat pitems /\ In REndOfStream rs /\ ~ In RBroken rs) /\
   (0 < D -> sc = true -> In RBroken rs /\ ~ In REndOfStream rs) /\
-  (0 < D -> sc = false -> In REndOfStream rs /\ ~ In RBroken rs).
+  (0 < D -> sc = false -> In REndOfStream rs /\ ~ In RBroken rs) /\
+  (D <= 2 -> sc = false -> received ops rs = concat pitems).
 Proof.
   intros Hw Hfuel Hk. cbn zeta.
   destruct (tls_endpoint_transparent m sc pitems chunks D (repeat (OReceive (S n)) k) fuel
-              (in_repeat_recv (S n) k) Hw Hfuel) as (T1 & T2 & T3 & T4 & _).
+              (in_repeat_recv (S n) k) Hw Hfuel) as (T1 & T2 & T3 & T4 & _ & _ & T7 & _).
   cbn zeta in *.
   assert (Hterm : In REndOfStream (snd (trun fuel (init_tobj m, ep0 sc chunks) (OHandshake :: repeat (OReceive (S n)) k))) \/
                   In RBroken (snd (trun fuel (init_tobj m, ep0 sc chunks) (OHandshake :: repeat (OReceive (S n)) k)))).
@@ -1651,18 +1653,20 @@ Proof.
     { exists tl. split; [|exact Htl]. rewrite <- Hw. unfold wire. now rewrite frs_of_records. }
     { exact Hfuel. }
     rewrite Hst. cbv beta iota.
-    destruct Hcase as [(-> & ib' & -> & HJ)|(-> & HD & Hdead)].
+    destruct Hcase as [(-> & ib' & -> & HJ)|(-> & HD & Hdead & _)].
     - pose proof (drain_J m fuel n k D (frs_of m pitems) ib' [] false s1 HJ) as H. cbn zeta in H.
       rewrite frs_of_concat in H. specialize (H Hk).
       destruct (trun fuel (alive m ib' [] false, s1) (repeat (OReceive (S n)) k)) as [w' rs]. cbn [snd] in *.
       destruct H; [left|right]; now right.
     - destruct (trun fuel (o', s1) _) as [w' rs]. cbn [snd]. destruct sc; [right|left]; now left. }
   set (rs := snd (trun fuel (init_tobj m, ep0 sc chunks) (OHandshake :: repeat (OReceive (S n)) k))) in *.
-  refine (conj _ (conj _ _)).
+  refine (conj _ (conj _ (conj _ _))).
   - intros HD. assert (Hnb : ~ In RBroken rs) by (intros H; apply T4 in H; lia).
     destruct Hterm as [He|Hb]; [|contradiction]. destruct (T3 He (or_intror HD)) as [_ Hr]. auto.
   - intros HD Hsc. assert (Hne : ~ In REndOfStream rs) by (intros H; destruct (T3 H (or_introl Hsc)); lia).
     destruct Hterm as [He|Hb]; [contradiction|auto].
+  - intros HD Hsc. assert (Hnb : ~ In RBroken rs) by (intros H; apply T4 in H; destruct H; congruence).
+    destruct Hterm as [He|Hb]; [auto|contradiction].
   - intros HD Hsc. assert (Hnb : ~ In RBroken rs) by (intros H; apply T4 in H; destruct H; congruence).
     destruct Hterm as [He|Hb]; [auto|contradiction].
 Qed.
@@ -1693,8 +1697,15 @@ Example ex_eof_mapping_std :
   snd out = [RBroken] /\ bin_eof (snd (fst out)) = true /\ trace (snd (fst out)) = [CRecv 0 RxEof].
 Proof. vm_compute. repeat split. Qed.
 
+(* not standard_compatible: the transport's end is reported as it is, the SSL object is not told (and not asked again) *)
 Example ex_eof_mapping_nonstd :
   let out := srun 3 ([mkev KWantRead [] 0 []; mkev KEofCls [] 0 []], init_pst false [] (Some RxEof) []) [OReceive 10] in
+  snd out = [REndOfStream] /\ bin_eof (snd (fst out)) = false /\ fst (fst out) = [mkev KEofCls [] 0 []].
+Proof. vm_compute. repeat split. Qed.
+
+(* not standard_compatible, the SSL object itself reports the unexpected EOF *)
+Example ex_ssl_eof_nonstd :
+  let out := srun 3 ([mkev KEofStr [] 0 []], init_pst false [] (Some RxEof) []) [OReceive 10] in
   snd out = [REndOfStream] /\ bin_eof (snd (fst out)) = true.
 Proof. vm_compute. repeat split. Qed.
 
@@ -1733,7 +1744,7 @@ Example ex_transparent_truncated :
   snd (trun 20 (init_tobj 1, ep0 true [firstn 7 ex_wire]) (OHandshake :: ex_ops))
     = [RVal []; RVal []; RVal [10; 11]; RBroken; RSslOther; RSslOther; RSslOther; RSslOther] /\
   snd (trun 20 (init_tobj 1, ep0 false [firstn 7 ex_wire]) (OHandshake :: ex_ops))
-    = [RVal []; RVal []; RVal [10; 11]; REndOfStream; RSslOther; RSslOther; RSslOther; RSslOther].
+    = [RVal []; RVal []; RVal [10; 11]; REndOfStream; RVal []; REndOfStream; REndOfStream; REndOfStream].
 Proof. split; [exists (skipn 7 ex_wire); vm_compute; auto|]. vm_compute. auto. Qed.
 
 (* cut during the handshake *)
